@@ -273,6 +273,29 @@ def run_clf(case, ctx):
                         ctx.violation(K + "classes-vs-columns", "classes_[argmax proba] != predict on %d confident "
                                       "rows: classes_[j] is not the label of column j" % len(bad), cfg=cfg,
                                       classes=list(classes))
+                # history: a second fit that the inner classifier refuses (NaN), labels presented in another
+                # order.  Afterwards the object either says it is not fitted or still answers as before - it never
+                # answers with the old classifier read through a new permutation
+                if learner != "DecisionTree":
+                    Xbad = X[::-1].copy()
+                    Xbad[0, 0] = numpy.nan
+                    try:
+                        tt.fit(Xbad, y[::-1].copy())
+                        refused = False
+                    except Exception:
+                        refused = True
+                    if refused:
+                        ctx.hit("classifier.after_refused_refit")
+                        try:
+                            pred2 = tt.predict(Xt)
+                            proba2 = tt.predict_proba(Xt)
+                        except Exception:
+                            pred2 = None
+                        if pred2 is not None and (not numpy.array_equal(pred2, pred) or not numpy.allclose(
+                                proba2, proba, rtol=0, atol=1e-12)):
+                            ctx.violation(K + "after-refused-refit/answers-changed", "after a refit refused by the inner "
+                                          "classifier, predict / predict_proba silently give other answers than before "
+                                          "(%d of %d labels changed)" % (int((pred2 != pred).sum()), len(pred)), cfg=cfg)
                 perm = tt.transformer_.permutation_
                 if k >= 3 and any(perm[l] != i for i, l in enumerate(sorted(perm))):
                     ctx.nontriv("clf", cfg)
@@ -396,6 +419,30 @@ def run_reg(case, ctx):
                           "the refitted regressor was not trained on the new transformation of the target", cfg=cfg)
     except Exception as e:
         ctx.violation("C13/regressor/raised/%s/history" % type(e).__name__, str(e)[:150], cfg=cfg)
+    # two models built from ONE transformer object, re-parametrised in between (a loop over function names): the first
+    # model keeps applying the reciprocal of its own function
+    cfg = {"name": name, "then": other, "history": "m1=fit(T(name)); T.set_params(fct=other); m2=fit(T); m1.predict",
+           "sub": case["sub"]}
+    try:
+        T = FunctionReciprocalTransformer(name)
+        m1 = TransformedTargetRegressor2(regressor=Rec(tag=7), transformer=T).fit(X, y1)
+        p1 = m1.predict(X)
+        T.set_params(fct=other)
+        m2 = TransformedTargetRegressor2(regressor=Rec(tag=7), transformer=T).fit(X, y2)
+        p1b, p2 = m1.predict(X), m2.predict(X)
+        ctx.hit("regressor.shared_transformer")
+        with numpy.errstate(all="ignore"):
+            e1, e2 = finv(m1.regressor_.predict(X)), finv2(m2.regressor_.predict(X))
+        if not numpy.allclose(p1b, p1, rtol=1e-12, atol=1e-12, equal_nan=True) or not numpy.allclose(
+                p1b, e1, rtol=1e-9, atol=1e-12, equal_nan=True):
+            ctx.violation("C13/regressor/predict-not-inverse/transformer-object-shared", "a model fitted with a "
+                          "transformer object changes its predictions when that object is re-parametrised and used "
+                          "by another model (%r -> %r)" % (name, other), cfg=cfg, before=p1[:3], after=p1b[:3])
+        if not numpy.allclose(p2, e2, rtol=1e-9, atol=1e-12, equal_nan=True):
+            ctx.violation("C13/regressor/predict-not-inverse/second-model", "the second model does not apply the "
+                          "reciprocal of %r" % other, cfg=cfg)
+    except Exception as e:
+        ctx.violation("C13/regressor/raised/%s/shared-transformer" % type(e).__name__, str(e)[:150], cfg=cfg)
     ctx.cls("reg=" + name)
 
 
